@@ -286,13 +286,15 @@ type HeapEvent struct {
 	Msg  string                 `json:"msg"`
 	Ret  map[string]interface{} `json:"ret"`
 	Objs []ObjView              `json:"objs"`
+	Mk   bool                   `json:"mk"`
+	Sup  bool                   `json:"sup"`
 }
 
 type heapRun struct {
-	objs  []*obj
-	names [][]byte
-	seen  map[string]bool
-	via   int
+	objs    []*obj
+	names   [][]byte
+	seen    map[string]bool
+	via     int
 	lastErr error
 }
 
@@ -339,19 +341,40 @@ func rowsArg(v interface{}) []Row {
 }
 
 func runScript(env *Env, sc Script, viaBase int) {
+	runSteps(env, sc.ID, viaBase, func(h *heapRun, i int) *Step {
+		if i >= len(sc.Steps) {
+			return nil
+		}
+		return &sc.Steps[i]
+	})
+}
+
+// runSteps executes the steps produced by next (nil = end of history) and logs one event per step.
+func runSteps(env *Env, id string, viaBase int, next func(h *heapRun, i int) *Step) {
 	h := &heapRun{seen: map[string]bool{}, via: viaBase}
 	h.note([]byte("~fresh~"))
-	env.Emit(map[string]interface{}{"h": sc.ID, "i": 0, "op": "Reset"})
-	for i, st := range sc.Steps {
+	env.Emit(map[string]interface{}{"h": id, "i": 0, "op": "Reset"})
+	for i := 0; ; i++ {
+		stp := next(h, i)
+		if stp == nil {
+			return
+		}
+		st := *stp
 		// names mentioned in arguments become names of interest
 		for _, k := range []string{"name", "ref"} {
 			if v, ok := st.A[k]; ok {
 				h.note(i2b(toInts(v)))
 			}
 		}
-		ev := HeapEvent{H: sc.ID, I: i + 1, Op: st.Op, Recv: st.Recv, A: st.A, Ret: map[string]interface{}{}}
+		ev := HeapEvent{H: id, I: i + 1, Op: st.Op, Recv: st.Recv, A: st.A, Ret: map[string]interface{}{}}
 		if ev.A == nil {
-			ev.A = map[string]interface{}{}
+			ev.A = map[string]interface{}{"z": 0}
+		}
+		if mk, ok := st.A["mk"]; ok && mk == true {
+			ev.Mk = true
+		}
+		if sp, ok := st.A["sup"]; ok && sp == true {
+			ev.Sup = true
 		}
 		func() {
 			defer func() {
@@ -363,6 +386,7 @@ func runScript(env *Env, sc Script, viaBase int) {
 					ev.Msg = fmt.Sprint(r)
 				}
 			}()
+			h.lastErr = nil
 			err := h.apply(st, ev.Ret)
 			if err != nil {
 				ev.Kind = "err"
@@ -684,9 +708,8 @@ func heapFamily(env *Env) error {
 	if env.N > 0 {
 		rng := rand.New(rand.NewSource(env.Seed))
 		for i := 0; i < env.N; i++ {
-			sc := randomHeapScript(rng, env.Mode, i)
-			sc.ID = fmt.Sprintf("r%d_%d", env.Seed, i)
-			runScript(env, sc, i)
+			g := newHeapGen(rng, env.Mode, env.Tier)
+			runSteps(env, fmt.Sprintf("r%d_%d", env.Seed, i), i, g.next)
 		}
 	}
 	return nil
